@@ -291,6 +291,8 @@ pub fn productions() -> Vec<Prod> {
         S "show_set_dot" "show std.figure: set std.figure.caption(‹A›)";
         S "show_dotted"  "show std.math.equation: ‹E›";
         S "import_dotted" "import a.b.c: d";
+        S "import_empty" "import \"m.typ\": ()";
+        S "import_empty_as" "import \"m.typ\" as n: ( )";
         S "import"       "import \"m.typ\"";
         S "import1"      "import \"m.typ\": a";
         S "import2"      "import \"m.typ\": b, a";
